@@ -234,11 +234,11 @@ pub fn notify_strategy() -> impl Strategy<Value = NotifyCase> {
     prop_oneof![
         4 => (
             max.clone(),
-            prop::collection::vec((0u8..3, prop_oneof![6 => 0u8..3, 1 => 3u8..6], prop_oneof![6 => 1u32..4, 2 => prop::sample::select(vec![119u32, 120, 121, 239, 240, 241]), 1 => 1u32..300]), 1..12),
+            prop::collection::vec((0u8..3, prop_oneof![6 => 0u8..3, 1 => 3u8..6, 1 => 6u8..8], prop_oneof![6 => 1u32..4, 2 => prop::sample::select(vec![119u32, 120, 121, 239, 240, 241]), 1 => 1u32..300]), 1..12),
         )
             .prop_map(|(max_count, ops)| NotifyCase { max_count, ops }),
         // many state keys (the service has two today; the limiter is per key, however many there are)
-        1 => (max, prop_oneof![Just(8u8), Just(17u8), Just(33u8), Just(65u8), Just(200u8)], prop::collection::vec((any::<u8>(), 0u8..3, prop_oneof![8 => 1u32..3, 1 => prop::sample::select(vec![119u32, 120, 121])]), 20..120))
+        1 => (max, prop_oneof![Just(8u8), Just(17u8), Just(33u8), Just(65u8), Just(200u8)], prop::collection::vec((any::<u8>(), prop_oneof![6 => 0u8..3, 1 => 3u8..6, 1 => 6u8..8], prop_oneof![8 => 1u32..3, 1 => prop::sample::select(vec![119u32, 120, 121])]), 20..120))
             .prop_map(|(max_count, width, ops)| NotifyCase { max_count, ops: ops.into_iter().map(|(k, v, r)| (k % width, v, r)).collect() }),
     ]
 }
@@ -250,7 +250,7 @@ pub fn notify_from_words(w: &mut crate::words::Words) -> NotifyCase {
     let n = w.words_left().clamp(1, 60);
     // (longer inputs address more state keys: the key space grows with the number of operations)
     let width: u8 = if n > 11 { 40 } else { 3 };
-    let op = (0u8..width, prop_oneof![6 => 0u8..3, 1 => 3u8..6], prop_oneof![6 => 1u32..4, 2 => prop::sample::select(vec![119u32, 120, 121, 239, 240, 241]), 1 => 1u32..300]);
+    let op = (0u8..width, prop_oneof![6 => 0u8..3, 1 => 3u8..6, 1 => 6u8..8], prop_oneof![6 => 1u32..4, 2 => prop::sample::select(vec![119u32, 120, 121, 239, 240, 241]), 1 => 1u32..300]);
     NotifyCase { max_count, ops: (0..n).map(|_| draw(&op, w.next())).collect() }
 }
 
@@ -260,7 +260,7 @@ pub fn value_text(v: u8) -> &'static str {
     const LONG64: &str = "error: aaaaaaaaaaaaaaaaaaaaaaaaaaaaaaaaaaaaaaaaaaaaaaaaaaaaaaaaa";
     const LONG65: &str = "error: aaaaaaaaaaaaaaaaaaaaaaaaaaaaaaaaaaaaaaaaaaaaaaaaaaaaaaaaaX";
     const LONG300: &str = "error: aaaaaaaaaaaaaaaaaaaaaaaaaaaaaaaaaaaaaaaaaaaaaaaaaaaaaaaaaYbbbbbbbbbbbbbbbbbbbbbbbbbbbbbbbbbbbbbbbbbbbbbbbbbbbbbbbbbbbbbbbbbbbbbbbbbbbbbbbbbbbbbbbbbbbbbbbbbbbbbbbbbbbbbbbbbbbbbbbbbbbbbbbbbbbbbbbbbbbbbbbbbbbbbbbbbbbbbbbbbbbbbbbbbbbbbbbbbbbbbbbbbbbbbbbbbbbbbbbbbbbbbbbbbbbbbbbbbbbbbbbbbbbbbbbbbbb";
-    ["success", "", "error", LONG64, LONG65, LONG300][v as usize % 6]
+    ["success", "", "error", LONG64, LONG65, LONG300, "Error", "SUCCESS"][v as usize % 8]
 }
 
 pub fn eval_notify(case: &NotifyCase, stats: &mut Stats) -> Outcome {
@@ -273,7 +273,7 @@ pub fn eval_notify(case: &NotifyCase, stats: &mut Stats) -> Outcome {
     if distinct_keys > 3 {
         stats.class(if distinct_keys >= 17 { "notify:>=17-state-keys" } else { "notify:4-16-state-keys" });
     }
-    if case.ops.iter().any(|o| o.1 % 6 >= 3) {
+    if case.ops.iter().any(|o| (3..6).contains(&(o.1 % 8))) {
         stats.class("notify:value-of-64-or-more-characters");
     }
     for (k, v, rep) in &case.ops {
@@ -316,4 +316,4 @@ pub fn eval_notify(case: &NotifyCase, stats: &mut Stats) -> Outcome {
     Outcome::Pass
 }
 
-pub const RULE: &str = "health: (a) EXHAUSTIVE: every success/failure sequence of length 22 from the initial state (2^22; every shorter sequence is a prefix and all predicates are checked after every step), one in 256 followed by a liveness tail (2 successes => Success, 21 failures => Error, 1 success => not Error); the 2^18 sequences whose last steps are failures are also run from StatusState::default(); (b) generated alternating runs with lengths around 1..3, 18..22 and the counters' saturation point 9999..10020, always followed by the liveness tail; (c) notification sequences over 3 keys (a fifth of the cases: 20-119 operations over up to 8/17/33/65/200 keys) x 6 values (success, error, the empty string, texts of 64 / 65 / 300 characters), max_count 120 (production) or small, repeat counts around max_count and 2*max_count. oracle: reference automaton + trace predicates from the statement (Error only with >= 20 consecutive failures ending at that step, never on a success step, two successes => Success), reference rate limiter. non-trivial: sequence with a failure run >= 19 or a saturating run; notification history with a run >= max_count; distinct by hash of the sequence.";
+pub const RULE: &str = "health: (a) EXHAUSTIVE: every success/failure sequence of length 22 from the initial state (2^22; every shorter sequence is a prefix and all predicates are checked after every step), one in 256 followed by a liveness tail (2 successes => Success, 21 failures => Error, 1 success => not Error); the 2^18 sequences whose last steps are failures are also run from StatusState::default(); (b) generated alternating runs with lengths around 1..3, 18..22 and the counters' saturation point 9999..10020, always followed by the liveness tail; (c) notification sequences over 3 keys (a fifth of the cases: 20-119 operations over up to 8/17/33/65/200 keys) x 8 values (success, error, the empty string, texts of 64 / 65 / 300 characters, and Error / SUCCESS: values are compared as spelled), max_count 120 (production) or small, repeat counts around max_count and 2*max_count. oracle: reference automaton + trace predicates from the statement (Error only with >= 20 consecutive failures ending at that step, never on a success step, two successes => Success), reference rate limiter. non-trivial: sequence with a failure run >= 19 or a saturating run; notification history with a run >= max_count; distinct by hash of the sequence.";
